@@ -257,32 +257,40 @@ def check(ctx):
                 else:
                     decls.append(GOOD_TEMPLATE % (i, i))
                     kinds.append(None)
-            src = "package p\n\n" + "\n".join(decls)
+            # the declarations are spread over one to three files of the package (an error is located in ITS file)
+            nfiles = 1 + k % 3
+            owner = [rnd.randrange(nfiles) for _ in decls]
+            fnames = ["p.go", "a_first.go", "z_last.go"][:nfiles]
+            srcs = {fn: "package p\n\n" + "\n".join(d for d, o in zip(decls, owner) if o == fi) for fi, fn in enumerate(fnames)}
+            src = "\n".join("// ---- %s\n%s" % (fn, t) for fn, t in srcs.items())
             root = os.path.join(scratch, "m")
-            gomod.write_module(root, {"p": {"p.go": src}})
+            gomod.write_module(root, {"p": srcs})
             rc, out, err = gomod.run_goose(root, ["-ignore-errors"], ["./p"])
             stats["independence_runs"] += 1
-            inp = {"source": src, "flags": ["-ignore-errors"]}
+            stats["independence_files"] += nfiles
+            inp = {"files": srcs, "flags": ["-ignore-errors"]}
             if is_crash(rc, err):
                 crash("independence", inp, err)
                 continue
-            errs = check_errors(inp, rc, err, {os.path.join(root, "p", "p.go")})
-            ranges = decl_ranges(src)[1:]
+            errs = check_errors(inp, rc, err, {os.path.join(root, "p", fn) for fn in fnames})
             problem = None
-            for (lo, hi, chunk), kind in zip(ranges, kinds):
-                here = [e for e in errs if e[3] is not None and lo <= e[3] <= hi]
-                if kind is None and here:
-                    problem = "a translatable declaration (lines %d-%d) got errors %s" % (lo, hi, here)
-                if kind is not None and len(here) != 1:
-                    problem = "declaration at lines %d-%d fails but has %d located errors" % (lo, hi, len(here))
-                elif kind is not None and here[0][0] != kind:
-                    problem = "declaration at lines %d-%d: category %s, expected %s" % (lo, hi, here[0][0], kind)
             outp = os.path.join(root, "Goose", "example_com", "m", "p.v")
             text = open(outp).read() if os.path.exists(outp) else ""
-            for (lo, hi, chunk), kind, i in zip(ranges, kinds, range(len(kinds))):
-                m = re.search(r"func (\w+)\(", chunk)
-                if kind is None and m and ("Definition %s:" % m.group(1)) not in text:
-                    problem = "good declaration %s is missing from the partial output" % m.group(1)
+            for fi, fn in enumerate(fnames):
+                fpath = os.path.join(root, "p", fn)
+                ranges = decl_ranges(srcs[fn])[1:]
+                fkinds = [kd for kd, o in zip(kinds, owner) if o == fi]
+                for (lo, hi, chunk), kind in zip(ranges, fkinds):
+                    here = [e for e in errs if e[3] is not None and e[2] is not None and os.path.abspath(e[2]) == fpath and lo <= e[3] <= hi]
+                    if kind is None and here:
+                        problem = "a translatable declaration (%s lines %d-%d) got errors %s" % (fn, lo, hi, here)
+                    if kind is not None and len(here) != 1:
+                        problem = "declaration at %s lines %d-%d fails but has %d errors located in it" % (fn, lo, hi, len(here))
+                    elif kind is not None and here[0][0] != kind:
+                        problem = "declaration at %s lines %d-%d: category %s, expected %s" % (fn, lo, hi, here[0][0], kind)
+                    m = re.search(r"func (\w+)\(", chunk)
+                    if kind is None and m and ("Definition %s:" % m.group(1)) not in text:
+                        problem = "good declaration %s is missing from the partial output" % m.group(1)
             if (rc == 0) != (not any(kinds)):
                 problem = "exit status %d with failing declarations %s" % (rc, [k for k in kinds if k])
             if problem and not found:
@@ -314,6 +322,32 @@ def check(ctx):
                 found = True
                 ctx.violation("counterexample", "errors are lost when several failing packages are translated in one invocation",
                               dict(inp, proto="cli-error"), expected="%d packages × %d errors" % (npk, nbad), observed={"error_counts": counts, "exit": rc, "stderr_tail": err[-800:]})
+        shutil.rmtree(root, ignore_errors=True)
+        # (f) termination on long but ordinary code: a dispatch function written as a sequence of early returns (goose has no switch)
+        #     nests one conditional per return in the else branch of the previous one; so does an else-if chain
+        nret = 64
+        disp = ("func dispatch(op uint64) uint64 {\n" + "".join("\tif op == %d {\n\t\treturn %d\n\t}\n" % (i, i * 7 + 1) for i in range(nret)) + "\treturn 0\n}\n\n"
+                "func chain(op uint64) uint64 {\n\tvar r uint64 = 0\n\tif op == 0 {\n\t\tr = 1\n\t}" + "".join(" else if op == %d {\n\t\tr = %d\n\t}" % (i, i + 2) for i in range(1, nret)) + "\n\treturn r\n}\n")
+        root = os.path.join(scratch, "long")
+        gomod.write_module(root, {"p": {"p.go": "package p\n\n" + disp}})
+        inp = {"source": "package p with dispatch: %d early returns `if op == i { return … }` in a row, and chain: an else-if chain of %d arms" % (nret, nret), "flags": []}
+        try:
+            import time as _t
+            t0 = _t.time()
+            rc, out, err = gomod.run_goose(root, [], ["./p"], timeout=120)
+            stats["long_function_seconds"] = round(_t.time() - t0, 2)
+            if is_crash(rc, err):
+                crash("long-function", inp, err)
+            else:
+                check_errors(inp, rc, err, None)
+                if rc != 0 and not found:
+                    found = True
+                    ctx.violation("counterexample", "goose rejects a long sequence of early returns / a long else-if chain", dict(inp, proto="cli-error"), expected="translated", observed={"exit": rc, "stderr_tail": err[-600:]})
+        except subprocess.TimeoutExpired:
+            if not found:
+                found = True
+                ctx.violation("counterexample", "goose does not terminate (120 s) on a type-correct package of two ordinary functions",
+                              dict(inp, proto="cli-error", go_source=disp[:600] + " …"), expected="complete output or structured errors", observed="no result after 120 s")
         shutil.rmtree(root, ignore_errors=True)
         # (e) whole-package refusals: a type-correct package that goose does not translate at all (it reaches two FFIs, directly or
         #     through a dependency) is refused with a structured, located error too, and its neighbours are still translated
